@@ -1,4 +1,50 @@
-From Coq Require Import List ZArith NArith.
-From QV Require Import Cell.Spec Feb.Model.
-Theorem placeholder_C06 : True. Proof. exact I. Qed.
-Print Assumptions placeholder_C06.
+(* C06: preconditioned tasks.  Statements only; proofs in Feb/PrecondProofs.v *)
+From Coq Require Import List ZArith NArith Bool.
+Import ListNotations.
+From QV Require Import Cell.Spec Feb.Model Feb.Proofs Feb.PrecondProofs.
+
+(* qthread_check_feb_preconds consumes only words that are full at that moment and parks on exactly one empty word *)
+Theorem precond_check_sound : forall febs k rem febs' rem',
+  check_walk febs k rem = (febs', rem') ->
+  exists seen, rem = seen ++ rem' /\ Forall (fun a => is_full febs a = true) seen /\
+    (forall b, is_full febs' b = is_full febs b) /\
+    match rem' with
+    | [] => febs' = febs
+    | a :: _ => is_full febs a = false /\
+                exists r, lookup a febs = Some r /\
+                  lookup a febs' = Some (mkRec false (r_EFQ r) (r_FEQ r) (mkW k None DNull true :: r_FFQ r) (r_FFWQ r)) /\
+                  (forall b, b <> a -> lookup b febs' = lookup b febs)
+    end.
+Proof. exact check_walk_sound. Qed.
+Print Assumptions precond_check_sound.
+
+(* precond_safe at spawn: enqueued by qthread_spawn only if every precondition word is full *)
+Theorem precond_safe_spawn : forall s t k pcs s' evs,
+  step s t (GSpawn k pcs) = (s', evs) -> In (Enq k) evs ->
+  Forall (fun a => is_full (st_febs s) a = true) pcs /\ lookup k (st_pre s') = Some [].
+Proof. exact spawn_safe. Qed.
+Print Assumptions precond_safe_spawn.
+
+(* precond_safe / precond_live at a re-check: progress only over words full now; enqueue iff nothing remains;
+   otherwise parked on one word that is empty now; full bits and memory untouched *)
+Theorem precond_recheck_safe : forall s k s' ok,
+  check_preconds s k = (s', ok) ->
+  exists rem seen rem', lookup k (st_pre s) = rem /\ (match rem with Some l => l | None => [] end) = seen ++ rem' /\
+    Forall (fun a => is_full (st_febs s) a = true) seen /\
+    lookup k (st_pre s') = Some rem' /\ ok = is_nil rem' /\
+    (forall b, is_full (st_febs s') b = is_full (st_febs s) b) /\ st_mem s' = st_mem s /\
+    match rem' with
+    | [] => st_febs s' = st_febs s
+    | a :: _ => is_full (st_febs s) a = false /\
+                exists r, lookup a (st_febs s) = Some r /\
+                  lookup a (st_febs s') = Some (mkRec false (r_EFQ r) (r_FEQ r) (mkW k None DNull true :: r_FFQ r) (r_FFWQ r))
+    end.
+Proof. exact recheck_safe. Qed.
+Print Assumptions precond_recheck_safe.
+
+(* an Enq emitted by an FEB call concerns a nascent waiter released by this very call *)
+Theorem precond_launch_from_batch : forall s t a o s' evs k,
+  step s t (GWord a o) = (s', evs) -> In (Enq k) evs ->
+  exists wr, word_step (lookup a (st_febs s)) (memget a s) t o = Some wr /\ In k (rel_batch (wr_rel wr)).
+Proof. exact step_launch_safe. Qed.
+Print Assumptions precond_launch_from_batch.
